@@ -50,6 +50,15 @@ impl<K: Hash + Eq, V> MapStack<K, V> {
         self.iter_dict().filter_map(|dict| dict.get(key)).nth(0)
     }
 
+    /// All values stored under `key`, innermost scope first
+    pub(crate) fn get_all<'a, Q>(&'a self, key: &'a Q) -> impl Iterator<Item = &'a V>
+    where
+        K: Borrow<Q>,
+        Q: Hash + Eq + ?Sized,
+    {
+        self.iter_dict().filter_map(move |dict| dict.get(key))
+    }
+
     pub(crate) fn insert(&mut self, key: K, value: V) {
         let _ = self.stack.last_mut().unwrap().insert(key, value);
     }
